@@ -16,7 +16,10 @@ RULE = ('E1: content bodies: all byte strings of length 1 and 2 (65792), all '
         'the others over 0 1 9 255 (quick) / the full 256^3 space '
         '(thorough). Each case: library bytes == reference bytes, decode '
         'gives identical content, channel and consumed == len. Non-trivial = '
-        'all but body b"\\x00" on channel 0 / version 0.9.1.')
+        'all but body b"\\x00" on channel 0 / version 0.9.1. Body values '
+        'given as other buffer objects (63 shapes: strided, N-dimensional, '
+        'wide items, ctypes): whatever the encoder accepts, len(object) == '
+        'bytes on the wire.')
 BOUNDS = {'quick': {'small_bodies': 'len<=2 all, len<=6 over 9 symbols',
                     'versions': '3 x 256 x 16'},
           'thorough': {'small_bodies': 'len<=2 all, len<=7 over 9 symbols',
@@ -28,7 +31,7 @@ SELFTEST_TASK = ('hb',)
 
 
 def tasks(tier, seed):
-    out = [('b1',), ('hb',), ('big',)]
+    out = [('b1',), ('hb',), ('big',), ('buffers',)]
     out += [('lengths', lo, lo + 600) for lo in range(0, 4800, 600)]
     out += [('lengths-far', 0, 0)]
     out += [('b2', hi) for hi in range(0, 256, 16)]
@@ -83,6 +86,83 @@ def check_body(ctx, body, channel):
             'byte-identical round trip', bad)
     else:
         ctx.outcome('ok')
+
+
+def buffer_values():
+    """Byte content handed over as something other than ``bytes``: the frame
+    is made of its bytes (C10 decides that); here, whatever the encoder
+    accepts, the body object must report the byte length it puts on the
+    wire."""
+    import array
+    import ctypes
+    raw = bytes(range(1, 49))
+    out = [bytearray(raw), bytearray(b'\xce'), memoryview(raw),
+           memoryview(bytearray(raw)), memoryview(raw)[5:],
+           memoryview(raw)[::2], memoryview(raw)[1::3], memoryview(raw)[::-1],
+           memoryview(raw).cast('B', shape=[6, 8]),
+           memoryview(raw).cast('B', shape=[6, 8])[::2],
+           memoryview(raw).cast('H'), memoryview(raw).cast('I'),
+           memoryview(raw).cast('Q'), memoryview(raw).cast('d'),
+           memoryview(raw).cast('I', shape=[3, 4]),
+           memoryview(raw).cast('H', shape=[2, 3, 4]),
+           memoryview(b'x').cast('B', shape=[1, 1]),
+           array.array('B', raw), array.array('b', [1, -1]),
+           array.array('H', raw), array.array('I', raw), array.array('Q', raw),
+           array.array('d', [1.5, -2.0, 0.0]), array.array('u', 'ab'),
+           (ctypes.c_ubyte * 5)(1, 2, 3, 4, 5), (ctypes.c_uint32 * 3)(1, 2, 3),
+           ctypes.c_int(5), ctypes.c_double(1.5),
+           memoryview(ctypes.c_int(5)), memoryview(ctypes.c_uint16(513))]
+    for n in (1, 2, 3, 7, 8, 9, 255, 256, 257, 4096, 65536):
+        out.append(array.array('I', range(n)))
+        out.append(memoryview(bytes(n * 8)).cast('Q'))
+        out.append(bytearray(n))
+    return out
+
+
+def check_buffers(ctx):
+    p = lib.pamqp()
+    for no, buf in enumerate(buffer_values()):
+        label = '#%d %s' % (no, type(buf).__name__)
+        try:
+            view = memoryview(buf)
+            label += ' format=%s shape=%s contiguous=%s' % (
+                view.format, list(view.shape), view.c_contiguous)
+            content = view.tobytes()
+        except (TypeError, ValueError, NotImplementedError):
+            continue
+        for channel in (1, 65535):
+            ctx.case(('buffer', no, channel), True,
+                     sample={'buffer': label, 'channel': channel})
+            ctx.valid()
+            try:
+                obj = p.body.ContentBody(buf)
+                data = p.frame.marshal(obj, channel)
+                ctx.calls(2)
+            except Exception:  # noqa - refusing such a value is the
+                ctx.outcome('refused')   # encoder's right (C10)
+                continue
+            bad = []
+            want, _f = refcodec.enc_body_frame(content, channel)
+            if data != want:
+                bad.append('frame is not made of the buffer\'s bytes')
+            try:
+                reported = len(obj)
+            except Exception as exc:  # noqa
+                reported = 'raised {!r}'.format(exc)
+            sent = len(data) - 8
+            if reported != sent:
+                bad.append('len(body object) is {} but {} bytes are put on '
+                           'the wire'.format(reported, sent))
+            if bad:
+                ctx.outcome('mismatch')
+                ctx.violation('buffer|%s|%d' % (label, channel),
+                              'body given as {} on channel {}: {}'.format(
+                                  label, channel, '; '.join(bad)),
+                              {'kind': 'buffer', 'no': no, 'label': label,
+                               'channel': channel},
+                              'reported length == byte length', bad)
+            else:
+                ctx.outcome('ok')
 
 
 def check_version(ctx, major, minor, rev):
@@ -144,7 +224,9 @@ def big_bodies():
 def run(task, ctx):
     kind = task[0]
     chans = A.CHANNEL
-    if kind == 'b1':
+    if kind == 'buffers':
+        check_buffers(ctx)
+    elif kind == 'b1':
         for v in range(256):
             for ch in chans:
                 body = bytes([v])
@@ -247,5 +329,8 @@ def replay(case, ctx):
                 if len(body) == case['len'] and \
                         body[:16].hex() == case['fill']:
                     check_body(ctx, body, case['channel'])
+    elif case['kind'] == 'buffer':
+        check_buffers(ctx)
+        ctx.violations = [v for v in ctx.violations if v['case'] == case]
     else:
         run(('hb',), ctx)
